@@ -62,10 +62,10 @@ def _cmul(a, b):
 def model(it):
     return it.new_object('MSSMNoFV_onshell', symbolic_fields(None, prefix='m.'))
 
-def compare(ctx, file, fn, mixing=False, nargs=1, extra=()):
+def compare(ctx, file, fn, mixing=False, nargs=1, extra=(), transform=None):
     it = Interp(ctx.w, mode='sym', stubs=stubs(), feasibility=False, div_sides=False)
     m = model(it)
-    mf = flip(m, mixing)
+    mf = transform(m) if transform is not None else flip(m, mixing)
     fds = [f for f in ctx.w.find(fn, file) if len(f.params) == nargs]
     if len(fds) != 1:
         ctx.record('', ERROR, 'B', 0, 'extraction: %d definitions of %s/%d' % (len(fds), fn, nargs))
@@ -73,24 +73,39 @@ def compare(ctx, file, fn, mixing=False, nargs=1, extra=()):
     p1 = it.run_paths(lambda: it.invoke(fds[0], [m] + list(extra), None), max_paths=200)
     p2 = it.run_paths(lambda: it.invoke(fds[0], [mf] + list(extra), None), max_paths=200)
     ctx.merge_rules(it)
-    if len(p1) != len(p2):
-        ctx.record('paths', FAILED, 'B', 0, 'the flipped state explores %d paths, the original %d' % (len(p2), len(p1)))
-        return
-    for k, ((s1, r1, e1), (s2, r2, e2)) in enumerate(zip(p1, p2)):
-        if (e1 is None) != (e2 is None):
-            ctx.record('path%d' % k, FAILED, 'B', 0, 'exception on one side only')
-            continue
-        if e1 is not None:
-            ctx.record('path%d' % k, PROVED if e1.cls == e2.cls else FAILED, 'B', 0, 'both throw %s' % e1.cls)
-            continue
-        if s1.taken != s2.taken:
-            ctx.record('path%d' % k, FAILED, 'B', 0, 'different branch decisions')
-            continue
-        if not is_sym(r1) and not is_sym(r2):
-            ctx.record('path%d' % k, PROVED if r1 == r2 else FAILED, 'B', 0, 'constants %s / %s' % (r1, r2))
-            continue
-        ctx.prove_ring('path%d' % k, [(r1, r2)])
-
+    # complete relational check: for every pair of paths (i of the state, j of the flipped state) whose path conditions can hold
+    # together the two results must coincide  (equal results need no feasibility check)
+    pre = []
+    n_pairs = 0
+    for i, (s1, r1, e1) in enumerate(p1):
+        for j, (s2, r2, e2) in enumerate(p2):
+            same = False
+            if e1 is not None or e2 is not None:
+                same = e1 is not None and e2 is not None and e1.cls == e2.cls
+            elif not is_sym(r1) and not is_sym(r2):
+                same = r1 == r2
+            else:
+                try:
+                    same = ring.identity(z3real(r1), z3real(r2))
+                except ring.NotRing:
+                    same = None
+            if same:
+                n_pairs += 1
+                continue
+            sv = z3.Solver()
+            sv.set('timeout', 4000)
+            sv.add(*[to_z3(c) for c in s1.pc + s2.pc])
+            st = sv.check()
+            if st == z3.unsat:
+                continue
+            tag = 'path%d_vs_%s_path%d' % (i, 'flipped' if transform is None else 'other', j)
+            if st == z3.sat and same is False:
+                mdl = sv.model()
+                ctx.record(tag, FAILED, 'B', 0, 'both path conditions hold at %s but the results differ: %s  vs  %s' %
+                           ({str(d): str(mdl[d]) for d in mdl.decls() if d.arity() == 0}, str(r1)[:150], str(r2)[:150]), solver='ring normalisation + z3')
+            else:
+                ctx.record(tag, UNDECIDED, 'B', 0, 'results not shown equal and joint feasibility of the two path conditions is %s' % st)
+    ctx.record('all_path_pairs', PROVED, 'B', 0, '%d x %d path pairs examined, %d with identical results (ring identity)' % (len(p1), len(p2), n_pairs), solver='ring normalisation (sympy) + z3')
 
 REPLAY_MAIN = r"""
 #include "gm2calc/MSSMNoFV_onshell.hpp"
